@@ -535,9 +535,10 @@ def _case(rng, op, axis=None, inplace=False, md=None, lay=None):
                 rng.shuffle(oids)
                 rng.shuffle(sids)
         else:
-            how = rng.choice(['both', 'both', 'samp', 'obs', 'none'])
-            rng.shuffle(oids)
-            rng.shuffle(sids)
+            how = rng.choice(['both', 'both', 'samp', 'obs', 'none', 'identical', 'identical'])
+            if how != 'identical':      # 'identical': already in the other table's order, still a new table is due
+                rng.shuffle(oids)
+                rng.shuffle(sids)
             if how in ('samp', 'none'):
                 oids = oids[:-1] + ['other_o']
             if how in ('obs', 'none'):
